@@ -98,6 +98,9 @@ def run(ck, rng, tier):
     if rc != 0 or len(outs) != len(meta):
         ck.broken("driver drv_alg", "rc=%s cases=%d/%d %s" % (rc, len(outs), len(meta), err[-800:]))
         return
+    for op_ in ("square", "ols", "pinv", "eig", "svd"):
+        sel_ = [k for k in range(len(meta)) if meta[k][0] == op_]
+        vf.reuse_scan(ck, "drv_alg:" + op_, [outs[k] for k in sel_], lambda j, sel_=sel_: {"op": op_, "matrix": np.array(meta[sel_[j]][1]).tolist()})
     # the LAPACK glue under AddressSanitizer/UBSan (rectangular inputs in both orientations)
     exa = vf.build_driver("drv_alg", "asan")
     svd_lines = [l for l in lines if l.startswith(("svd", "pinv", "eig"))]
